@@ -248,15 +248,33 @@ def run(rep, facts):
         rep.violation("R16.5", "size_hint", "size_hint is not (0, Some(data.len() / 2))", sb.loc())
 
 
+def run_prefix_codec(rep, facts):
+    """R16.6: the two length prefixes of a pair are written by VarInt::write and its return value enters the reported total (R16.4); the
+    prefix is decodable, and the total is "exactly the bytes written", only if VarInt::write emits the whole encoding through write_all
+    and returns its length (obligations O4-write / O6 of C15, re-evaluated)."""
+    from . import c15
+    rep.rule("R16.6", "the length-prefix encoder nv::write relies on emits the complete one- or four-byte form for every writer and returns exactly that count "
+                      "(C15 O4 write/forms, O6 write/count): a short prefix neither decodes back nor matches the reported total")
+    sr = check.Report("tmp", "quick")
+    c15.run_codec(sr, facts)
+    n = 0
+    for i in sr.instances:
+        if i["instance"].startswith("write/"):
+            n += 1
+            (rep.ok if i["status"] == "ok" else rep.violation)("R16.6", i["instance"], i["detail"], i["loc"])
+    rep.floor("R16.6", "prefix encoder obligations", n, 2)
+
+
 def main(rep, tier):
     f = F.load(("async", "http"))
     rep.configs.append({"features": "async,http", "profile": "debug", "bodies": len(f.bodies)})
     check.guard(rep, "R16", run, f)
+    check.guard(rep, "R16.6", run_prefix_codec, f)
     rep.floor("R16", "rule instances", len([i for i in rep.instances if i["status"] == "ok"]), 6)
     import check as _c
     _c.witnesses(rep, "C16", f)
     return rep.finish(
         "Failure paths of the decoder are side-effect free; the split is guarded and uses the bytes actually consumed by the length "
-        "prefixes; one generic implementation serves both slice kinds; the encoder's count ledger balances. The zero-copy property "
+        "prefixes; one generic implementation serves both slice kinds; the encoder's count ledger balances and its prefix encoder is exact for every writer (R16.6). The zero-copy property "
         "is a type-level fact (witness in /verif/witness).",
         not_decided="round-trip equality, prefix-monotonicity over all inputs and that the number of pairs never exceeds the size hint (value-level)")
